@@ -4,7 +4,7 @@ known findings, replay files, evidence."""
 import glob, hashlib, json, os, re, shutil, subprocess, sys, time
 
 ROOT = os.path.dirname(os.path.dirname(os.path.abspath(__file__)))
-REPO = '/repo'
+REPO = os.environ.get('VERIF_REPO', '/repo')   # background sweeps may point this at a snapshot of /repo
 WORK = os.path.join(ROOT, '.work')
 SPEC = os.path.join(ROOT, 'spec')
 sys.path.insert(0, os.path.join(ROOT, 'tools'))
@@ -36,7 +36,7 @@ def tier_from(argv_tier=None):
 def gen_gomod():
     s = open(os.path.join(REPO, 'go.mod')).read()
     reqs = re.findall(r'require \((.*?)\n\)', s, re.S)
-    out = 'module verif/harness\n\ngo 1.22\n\nrequire berty.tech/go-orbit-db v0.0.0\n\nreplace berty.tech/go-orbit-db => /repo\n\n'
+    out = 'module verif/harness\n\ngo 1.22\n\nrequire berty.tech/go-orbit-db v0.0.0\n\nreplace berty.tech/go-orbit-db => ' + REPO + '\n\n'
     for r in reqs:
         out += 'require (' + r + '\n)\n\n'
     for m in re.findall(r'^replace .*$', s, re.M):
